@@ -515,7 +515,7 @@ class Roles:
             _, self.G, self.Go, nest = best
             if nest:
                 self.N, self.No = nest
-        unknown = [t for t in (5001, 5003, 40000, 65535) if t not in s.bynum]
+        unknown = [t for t in (5001, 5003, 40000, 65535, 2 ** 32 + 5001, 10 ** 19 + 7) if t not in s.bynum]
         self.U = unknown
         self.ok = self.Bm is not None and self.Bo is not None
 
@@ -575,7 +575,9 @@ class Roles:
             elif a == "U":
                 dst.append((str(rng.choice(self.U)).encode(), b"unk"))
             elif a == "W":
-                dst.append((str(65536 + self.Bo.field.number).encode(), typed_value(s, self.Bo.field.number, rng)))
+                # a tag that equals a legal field of this position modulo 2^16, 2^32 or 2^64 (number conversions that wrap)
+                dst.append((str(rng.choice([65536, 65536, 2 ** 32, 2 ** 64]) + self.Bo.field.number).encode(),
+                            typed_value(s, self.Bo.field.number, rng)))
             elif a in ("Cok", "Cbad"):
                 chk = a
                 post = []
